@@ -141,6 +141,20 @@ var dtMethodOf = map[string]string{"date": "date", "time": "time", "timetz": "ti
 
 var c18Paths = map[string]*path.Path{}
 
+var c18ForceCtx *time.Location
+
+var c18CtxZones = func() []*time.Location {
+	var out []*time.Location
+	for _, n := range []string{"America/New_York", "Europe/Berlin", "Asia/Tokyo", "Australia/Sydney", "America/Santiago"} {
+		l, err := time.LoadLocation(n)
+		if err != nil {
+			panic("harness: tzdata: " + err.Error())
+		}
+		out = append(out, l)
+	}
+	return out
+}()
+
 func c18Path(txt string) *path.Path {
 	if p, ok := c18Paths[txt]; ok {
 		return p
@@ -152,7 +166,15 @@ func c18Path(txt string) *path.Path {
 
 func checkValueC18(c *h.Ctx, v *dtVal) {
 	c.Eval(1)
+	// Parsing and printing a value does not involve the context zone: half of
+	// the values are handled under a context that carries a daylight-saving
+	// zone (their wall-clock readings may not exist there).
 	ctx := context.Background()
+	if c18ForceCtx != nil {
+		ctx = types.ContextWithTZ(ctx, c18ForceCtx)
+	} else if (v.hh+v.mi+v.d)%2 == 0 {
+		ctx = types.ContextWithTZ(ctx, c18CtxZones[(v.d+v.mo)%len(c18CtxZones)])
+	}
 	exp := v.expected()
 	_, off := v.v.GoTime().Zone()
 	nontrivial := v.hh+v.mi+v.ss+v.ns != 0 || v.off != 0
@@ -369,7 +391,8 @@ func checkUnmarshalBytesC18(c *h.Ctx, typ string, in []byte) {
 
 func checkCommuteC18(c *h.Ctx, zone string, y, mo, d, hh, mi, ss, ns int) {
 	loc := h.ParseZone(zone)
-	ctx := types.ContextWithTZ(context.Background(), loc)
+	// (the zone set last wins, whatever a context further up carries)
+	ctx := types.ContextWithTZ(types.ContextWithTZ(context.Background(), c18CtxZones[(d+hh)%len(c18CtxZones)]), loc)
 	cs := h.Case{Kind: "tz-commute", Zone: zone, Extra: map[string]string{"y": fmt.Sprint(y), "mo": fmt.Sprint(mo), "d": fmt.Sprint(d),
 		"hh": fmt.Sprint(hh), "mi": fmt.Sprint(mi), "ss": fmt.Sprint(ss), "ns": fmt.Sprint(ns)}}
 	c.Eval(1)
@@ -469,6 +492,20 @@ func runC18(c *h.Ctx) {
 		checkValueC18(c, mkVal(typs[r.IntN(5)], y, mo, d, r.IntN(24), r.IntN(60), r.IntN(60), ns, off))
 	}
 
+	// wall-clock readings that do not exist in some daylight-saving zone (or
+	// exist twice), handled under a context carrying that very zone
+	for gi, g := range [][6]int{{2024, 3, 10, 2, 30, 0}, {2024, 3, 31, 2, 30, 0}, {2024, 10, 6, 2, 30, 0}, {2024, 9, 8, 0, 30, 0}, {2024, 11, 3, 1, 30, 0}, {2024, 10, 27, 2, 30, 0}, {2024, 4, 7, 2, 30, 0}, {2024, 3, 10, 2, 0, 0}, {2024, 3, 10, 2, 59, 59}} {
+		if !c.Mine(gi) {
+			continue
+		}
+		for _, z := range c18CtxZones {
+			c18ForceCtx = z
+			for _, typ := range typs {
+				checkValueC18(c, mkVal(typ, g[0], g[1], g[2], g[3], g[4], g[5], 500000000*(gi%2), 3600*(gi%5-2)))
+			}
+		}
+		c18ForceCtx = nil
+	}
 	// hostile UnmarshalJSON input: valid JSON values.
 	tokens := []string{"null", "true", "false", "0", "1", "-1", "1.5", "1e3", "12", "123456789012", `""`, `" "`, "[]", "{}", `[""]`, `{"a":1}`, `"a"`, `"ab"`,
 		`"1"`, `"\""`, `"\\"`, `"2023-08-15"`, `"12:34:56"`, `"12:34:56+01"`, `"12:34:56+01:00"`, `"12:34:56+01:00:00"`, `"12:34:56Z"`, `"2023-08-15T12:34:56"`,
